@@ -6,7 +6,7 @@ set -u
 PROP="$1"; DIR="$2"; NAME="$3"; shift 3; EXTRA="$*"
 WT="${SEED_WT:-/tmp/wt_eval}"; SIMDIR="${SEED_SIM:-/tmp/seedsim}"; LOG=/tmp/seed_logs/$NAME.log; : > "$LOG"
 # snapshot of the simulator sources, so that /verif/sim can be edited while this runs
-[ -n "${SEED_EVAL_NO_SYNC:-}" ] || rsync -a --delete /verif/sim/src/ $SIMDIR/src/
+[ -n "${SEED_EVAL_NO_SYNC:-}" ] || { rsync -a --delete /verif/sim/src/ $SIMDIR/src/; cp /verif/sim/build.rs $SIMDIR/; }
 cd $WT && git checkout -q -- . && rm -f tests/seed_demo.rs
 git apply "$DIR/patch.diff" >>"$LOG" 2>&1 || { echo "{\"name\":\"$NAME\",\"error\":\"patch does not apply\"}" > /tmp/seed_logs/$NAME.json; exit 1; }
 echo "== suite with patch" >>"$LOG"
